@@ -5,7 +5,7 @@
      {"ev":"reset","sid":n,"kind":"split"|"batch","signal":..,"sizer":"items"|"bytes","max":n,"min":n}
      {"ev":"consume","req":r,"items":[{"id":..,"c":ctx},..]}  the request is handed in (projection of
                                                               the payload it was built from)
-     {"ev":"emit","k":n,"items":[..],"reqs":[r,..],"size":n}
+     {"ev":"emit","k":n,"items":[..],"reqs":[r,..],"shells":n,"size":n}   (shells: not used by the monitor)
                                                  a part reaches the export function (split scripts: is
                                                  returned by MergeSplit for emission); items as found in
                                                  it, requests whose resources are present in it, size in
